@@ -17,8 +17,10 @@ class Irregular(Exception):
 
 
 def _codegen():
-    if "/repo" not in sys.path:
-        sys.path.insert(0, "/repo")
+    from .core import REPO
+
+    if REPO not in sys.path:
+        sys.path.insert(0, REPO)
     from codegen.case import to_snake_case
     from codegen.parser import datetime_names, error_code_names, timedelta_names
 
